@@ -94,8 +94,14 @@ func main() {
 		if os.Getenv("VCONV_STDERR") != "" {
 			fmt.Fprintf(os.Stderr, "converted %s", meta)
 		}
+		// the executable can be "replaced by another one": a generation number next to the converter directory is
+		// part of what it outputs (read per stream, the harness writes the file when it replaces the executable)
+		gen := ""
+		if b, err := os.ReadFile(filepath.Join(filepath.Dir(filepath.Dir(os.Args[0])), filepath.Base(os.Args[0])+".gen")); err == nil {
+			gen = "#" + strings.TrimSpace(string(b))
+		}
 		for _, ch := range []chunk{
-			{Direction: "client-to-server", Content: base64.StdEncoding.EncodeToString([]byte(strings.ToUpper(string(c)))), Time: t},
+			{Direction: "client-to-server", Content: base64.StdEncoding.EncodeToString([]byte(strings.ToUpper(string(c)) + gen)), Time: t},
 			{Direction: "server-to-client", Content: base64.StdEncoding.EncodeToString([]byte(fmt.Sprint(len(s)))), Time: t},
 		} {
 			b, _ := json.Marshal(ch)
